@@ -41,6 +41,15 @@ ASSUMPTIONS = [
     "journal row under the next outbound number - C05's invariant); dead_peer_disconnected and both liveness "
     "theorems need no such assumption (a failed send still records the id / is swallowed)",
     "application hooks (on_state_change, on_disconnect, on_message) return normally",
+    "every duration in C12 is read on the connection's own clock, time.time(): 'within the allowed time' = before a "
+    "tick at which time.time() exceeds the time of the probe's SENDING by more than 2h (and nothing valid arrived for "
+    "2h on that clock). A clock step or a starved timer task that makes that much clock time pass while a probe is "
+    "outstanding costs the peer its time - dropping it then is consistent with the property; what must never happen is "
+    "a teardown in the very tick that sends the probe, or with nothing outstanding while a frame arrived within 2h. "
+    "The step theorems (no_outstanding_tick_never_disconnects, outstanding_tick, live_peer_spared) hold for ANY tick "
+    "times - forwards jumps, backwards steps, a standing clock; only the 'how soon' bounds (testreq_sent, "
+    "dead_peer_disconnected) assume tick gaps <= delta. The scenarios feed such clocks: one gap of h+1 .. 100h at the "
+    "first tick / around the probe / anywhere, clock steps of the same sizes forwards and backwards, a standing clock",
     "the heartbeat interval is the constructor's heartbeat_period, an integer number of seconds in the model and the "
     "theorems (every h >= 1); the library never adopts the HeartBtInt(108) of the peer's Logon (an acceptor echoes it "
     "back but watches with its own configured period) - a deviation from FIX noted in the report, not a C12 violation; "
@@ -75,7 +84,7 @@ def make_spec(h, peer, gaps, phase, t0_off=0, tie="tick", role=1, counters=(5, 7
 
 
 def spec_delta(spec):
-    return max(max(spec["gaps"]), spec["phase"])
+    return max([max(spec["gaps"]), spec["phase"]] + [abs(ms) for _k, _kind, ms in spec.get("clock", [])])
 
 
 def stamp_of(now_ms):
@@ -329,10 +338,22 @@ def _run_scenario(impl: S.Impl, spec):
     a = S.with_journal(a, spec["journal"])
     a.state = spec.get("state", 17)   # 10 RESENDREQ_HANDLING / 11 RECV_SEQNUM_TOO_HIGH / 12 RESENDREQ_AWAITING
     impl.load(a)
-    peer = Peer(spec, t0)
+    peer = Peer(spec, t0)      # the peer lives in MONOTONIC scenario time
     gaps, gi = spec["gaps"], 0
     next_tick = t0 + spec["phase"]
+    for k_, kind_, ms_ in spec.get("clock", []):
+        if k_ == 0 and kind_ == "stall":
+            next_tick = t0 + ms_
     end = t0 + spec["horizon"]
+    # the connection's clock: time.time() = monotonic time + offset.  spec["clock"] = [[k, kind, ms], ...]:
+    #   "stall": the k-th watchdog tick comes `ms` after the previous one instead of the grid's gap (timer task
+    #            starved / host suspended: one tick gap of h+1 .. 100h);  "step": from the k-th tick on the clock
+    #            shows `ms` more (negative: it was stepped backwards);  "still": the k-th tick reads the same time as
+    #            the previous one (the clock stands still across ticks)
+    clock = {}
+    for k_, kind_, ms_ in spec.get("clock", []):
+        clock.setdefault(k_, []).append((kind_, ms_))
+    offset, prev_tick_wall = 0, None
     line = []
     pre = impl.dump()
     cur = a
@@ -340,9 +361,10 @@ def _run_scenario(impl: S.Impl, spec):
     while True:
         due = peer.next_due()
         if due is not None and (due < next_tick or (due == next_tick and spec["tie"] == "recv")):
-            now, _, act = peer.pop()
-            if now > end:
+            mono, _, act = peer.pop()
+            if mono > end:
                 break
+            now = mono + offset
             if act["op"] == "fillto":
                 out = ("4", [(123, "Y"), (43, "Y"), (122, stamp_of(now)), (36, str(act["to"]))], act["begin"])
             else:
@@ -359,7 +381,7 @@ def _run_scenario(impl: S.Impl, spec):
                         for e in step["eff"]:
                             if e.startswith("W="):
                                 mt, fs = S.parse_msg_tok(e[2:])
-                                peer.saw_frame(now, mt, fs)
+                                peer.saw_frame(mono, mt, fs)
                         pre, cur = step["post"], step["a_post"]
                 if cur.state <= 3 or not cur.sock:
                     after_down += 1
@@ -367,12 +389,23 @@ def _run_scenario(impl: S.Impl, spec):
                         break
                 continue
         else:
-            now = next_tick
-            if now > end:
+            mono = next_tick
+            if mono > end:
                 break
+            for kind_, ms_ in clock.get(gi, []):
+                if kind_ == "step":
+                    offset += ms_
+                elif kind_ == "still" and prev_tick_wall is not None:
+                    offset = prev_tick_wall - mono
+            now = mono + offset
+            prev_tick_wall = now
             ev = ("tick", now)
             kind = "tick"
-            next_tick += gaps[gi % len(gaps)]
+            gap = gaps[gi % len(gaps)]
+            for kind_, ms_ in clock.get(gi + 1, []):
+                if kind_ == "stall":
+                    gap = ms_
+            next_tick += gap
             gi += 1
         del impl.eff[:]
         impl.apply("all", ev)
@@ -382,7 +415,7 @@ def _run_scenario(impl: S.Impl, spec):
         for e in eff:
             if e.startswith("W="):
                 mt, fs = S.parse_msg_tok(e[2:])
-                peer.saw_frame(now, mt, fs)
+                peer.saw_frame(mono, mt, fs)
         pre, cur = post, nxt
         if cur.state <= 3 or not cur.sock:
             after_down += 1
@@ -519,6 +552,20 @@ def all_specs(rng, n):
                                                             [9900, 100, 10100, 100, 100, 100], [100, 12000, 4000, 100, 100, 100]]))
             if h <= 2 and i % 25 in (1, 2):
                 out[-1]["peer"]["pads"] = [100, 70000, 100, 100, 100, 100, 100, 100]
+        # clock dimension: every 4th scenario has a tick gap that no small delta bounds (h+1 .. 100h, at the first
+        # tick, around the probe, later), or a clock that is stepped forwards / backwards or stands still
+        if i % 4 == 3:
+            H_ = h * 1000
+            nprobe = max(0, ((h - 1) * 1000 - phase) // gaps[0] + 1)     # index of the tick that probes a silent peer
+            k = rng.choice([0, 1, nprobe, nprobe + 1, nprobe + 2, nprobe + 2 * (H_ // gaps[0]), rng.randrange(0, 3 * (H_ // gaps[0]) + 4)])
+            J = rng.choice([H_ + 1000, H_ + 1125, 2 * H_, 2 * H_ + 125, 3 * H_, 100 * H_])
+            kind = rng.choice(["stall", "stall", "step", "step", "back", "still"])
+            if kind == "back":
+                out[-1]["clock"] = [[max(1, k), "step", -rng.choice([125, 1000, H_, 2 * H_ + 125, 3 * H_])]]
+            elif kind == "still":
+                out[-1]["clock"] = [[max(1, k) + j, "still", 0] for j in range(rng.choice([1, 3]))]
+            else:
+                out[-1]["clock"] = [[k, kind, J]]
         if peer["kind"] in ("silent", "periodic", "burst") and not peer.get("answer") and i % 3 == 0:
             v = state_variants(rng, h)
             out[-1]["state"] = v["state"]
@@ -581,7 +628,7 @@ def correspondence(ctx):
         impl.close()
     dis, bad = [], set()
     dist = {"h": {}, "peer": {}, "outcome": {}, "event": {}, "effect": {}, "start_state": {}, "tick_in_state": {},
-            "transport": {}, "frame_bytes": {}}
+            "transport": {}, "frame_bytes": {}, "clock": {}}
 
     def inc(d, k):
         dist[d][k] = dist[d].get(k, 0) + 1
@@ -607,6 +654,8 @@ def correspondence(ctx):
         inc("h", str(spec["h"]))
         inc("start_state", str(spec.get("state", 17)))
         inc("transport", f"bytes/{spec['bytes']['chunk']}" if spec.get("bytes") else "decoded")
+        ck = spec.get("clock")
+        inc("clock", "steady" if not ck else ("back" if ck[0][2] < 0 else ck[0][1]) + (":first-tick" if ck[0][0] == 0 else ""))
         p = spec["peer"]
         inc("peer", p["kind"] + ("+answer:" + p["answer"].get("flavour", "right") if p.get("answer") else ""))
         inc("outcome", outcome(line))
@@ -629,7 +678,9 @@ def correspondence(ctx):
                 "quiet-but-responsive, chatty and silent peers; the peer keeps its own counter and serves our "
                 "ResendRequests by gap fill / replay / never} x {transport: decoded frames handed to "
                 "_process_message | bytes through the real socket_read_task in reads of <= 4096 / 1500 / 700 bytes} x "
-                "{application frame sizes 100 B .. 70 KiB} x {h also 60 and 3600 s on coarse tick grids} x {tick gap "
+                "{application frame sizes 100 B .. 70 KiB} x {h also 60 and 3600 s on coarse tick grids} x {clock: steady | one tick gap of h+1 .. 100h "
+                "(stall) at the first tick / around the probe / anywhere | the clock stepped forwards or backwards by "
+                "such amounts | standing still across ticks} x {tick gap "
                 "patterns 1000..1875 ms} x {phase of the grid relative to the last frame} x {sub-second offset of t0, "
                 "tick-or-frame first on ties, role, counters, journal shape}; every event of every scenario is one "
                 "evaluation (real coroutine vs. model from the same pre-state, effects with SendingTime + full "
